@@ -33,6 +33,10 @@ CHECKS = {
                 technique="explicit-state exploration of the cursor protocol on the real accessors: states = every byte offset of the image (+null) for every view reachable by random access, transitions = every (member, wrapper, get/set) label from every state; plus complete traversals under every cyclic wrapper-choice string and every group iteration style; reference = documented protocol table",
                 text="For each image the cursor is placed at every offset 0..len and null; from each state every cursor accessor of every view with every wrapper is called in a checked build. Legal calls must return the random-access value/address and leave the cursor at the documented position; illegal plain/dont_move/skip calls must reach the assertion handler (no silent return, no fault). Complete in-order traversals with all wrapper choice strings up to the length bound and five iteration styles must end at the message end.",
                 note="Trusted: compilers, the protocol table (DESIGN.md Appendix A), harness capture of the assertion handler via siglongjmp."),
+    "C05": dict(category="exploration", design_ref="DESIGN.md 5 / C05",
+                technique="bounded-exhaustive enumeration: (i) every size query on every view of every catalogue image vs. the reference image length (random access + cursor), (ii) trait-level size_bytes(counts..., total_data) for the message and every group instance, (iii) all 16 dimension type pairs / 4 length types x boundary header values in a header-only guarded buffer vs. a 128-bit product",
+                text="Five numbers are required to agree for every instance of the bounded space: run-time size_bytes of the message and of each member/sub-view, the cursor-based size after a traversal, the trait formula with the model's per-level totals, and the length of the image produced by the reference encoder. Products beyond 31/32 bits are covered by writing boundary values of every header field type into a header-only buffer.",
+                note="Trusted: compilers, reference model, unsigned __int128 product as oracle. Sizes that do not fit size_t are excluded as the property states."),
     "C12": dict(category="model_checking", design_ref="DESIGN.md 5 / C12",
                 technique="explicit-state exploration of the real group iterators: state = iterator index, all iterator-op sequences up to depth 3 from begin() and end(), integer index model; all 16 dimension type pairs",
                 text="For each of the 16 (numInGroup, blockLength) type pairs x group sizes 0..3 x wire block lengths {0,1,2,5}: every in-domain sequence of iterator operations up to the depth bound is executed on the generated group views; after every step the entry address, it[k], (it+k)-k, distances and all six orderings against an iterator at every index are compared with index arithmetic. Nested groups: all inner-count vectors over {0,1,2}^n. resize/clear are checked to change only numInGroup.",
